@@ -30,6 +30,9 @@ type c25Op struct {
 	// Guard (setsize): the SETATTR carries a sattrguard3 with the object's current ctime (fetched by GETATTR just before);
 	// a guard that matches does not lift the limit
 	Guard bool `json:"guard,omitempty"`
+	// Mode (setsize): the same SETATTR also sets mode 0600 and mtime; a request refused for its size leaves all of the
+	// file as it was
+	Mode bool `json:"mode,omitempty"`
 }
 
 type c25Case struct {
@@ -48,7 +51,7 @@ func genC25(t *rapid.T) c25Case {
 	}
 	n := rapid.IntRange(2, 14).Draw(t, "n")
 	for i := 0; i < n; i++ {
-		c.Ops = append(c.Ops, c25Op{Kind: pick(t, "kind", "write", "write", "write", "setsize", "setsize", "create"), End: rapid.IntRange(0, 10).Draw(t, "end"), Len: pick(t, "len", 0, 1, 2, 3, 100, 5000), Guard: rapid.IntRange(0, 2).Draw(t, "guard") == 0})
+		c.Ops = append(c.Ops, c25Op{Kind: pick(t, "kind", "write", "write", "write", "setsize", "setsize", "create"), End: rapid.IntRange(0, 10).Draw(t, "end"), Len: pick(t, "len", 0, 1, 2, 3, 100, 5000), Guard: rapid.IntRange(0, 2).Draw(t, "guard") == 0, Mode: rapid.IntRange(0, 2).Draw(t, "mode") == 0})
 	}
 	return c
 }
@@ -177,10 +180,16 @@ func runC25(tb stat.TB, c c25Case) {
 						tg = &g
 					}
 				}
-				lres = lim.nfs(nfsx.ProcSetattr, nfsx.ArgsSetattr(lfh, nfsx.Sattr{Size: nfsx.U64p(end)}, lg))
+				sa := nfsx.Sattr{Size: nfsx.U64p(end)}
+				if op.Mode {
+					sa.Mode = nfsx.U32p(uint32(0600 + i%8))
+					sa.Mtime = nfsx.SetTime{How: 2, T: nfsx.Time{Sec: uint32(4000 + i), Nsec: 1}}
+					what += " + mode + mtime"
+				}
+				lres = lim.nfs(nfsx.ProcSetattr, nfsx.ArgsSetattr(lfh, sa, lg))
 				exceeds := int64(end) > c.M
 				if !exceeds {
-					tres = twin.nfs(nfsx.ProcSetattr, nfsx.ArgsSetattr(tfh, nfsx.Sattr{Size: nfsx.U64p(end)}, tg))
+					tres = twin.nfs(nfsx.ProcSetattr, nfsx.ArgsSetattr(tfh, sa, tg))
 				}
 				if int64(end) >= c.M-1 && int64(end) <= c.M+1 {
 					nt = true
@@ -201,6 +210,11 @@ func runC25(tb stat.TB, c c25Case) {
 				// refused request: nothing may have changed
 				if lres.Status != nfsx.OK && (post.Size != pre.Size || lv.Snapshot()["/f"].Hash != hashOf(lv, pre)) {
 					_ = pre
+				}
+				if lres.Status != nfsx.OK && (post.Perm != pre.Perm || post.Uid != pre.Uid || post.Gid != pre.Gid) {
+					if stat.Violate(tb, id, check, "refused-request-changes-file", c, "%s was refused (%s) but mode/owner went from %o %d/%d to %o %d/%d", what, statusName(lres.Status), pre.Perm, pre.Uid, pre.Gid, post.Perm, post.Uid, post.Gid) {
+						return
+					}
 				}
 				if lres.Status != nfsx.OK && post.Size != pre.Size {
 					if stat.Violate(tb, id, check, "refused-request-changes-file", c, "%s was refused but the size went from %d to %d", what, pre.Size, post.Size) {
